@@ -268,7 +268,10 @@ impl<R: RuleType> Error<R> {
         };
 
         let mut line_iter = span.lines();
-        let sl = line_iter.next().unwrap_or("");
+        // an empty span at the end of the input overlaps no line: show the line it sits on
+        let sl = line_iter
+            .next()
+            .unwrap_or_else(|| span.start_pos().line_of());
         let mut chars = span.as_str().chars();
         let start = span.start_pos();
         let visualize_ws = matches!(chars.next(), Some('\n') | Some('\r'))
